@@ -347,9 +347,34 @@ def run(chk, repo):
             def visit_Name(self, n):
                 return ast.Name(id="first_sign", ctx=ast.Load()) if n.id == "last_sign" else n
         test0 = _R().visit(ast.parse(unparse(test0), mode="eval").body)
-    chk.require(len(fs) == 1 and same_cond(norm_cmp(test0), parse_cond("first_sign == 0")),
-                "zcross: 'if first_sign == 0' block not found")
-    blk = fs[0]
+    chk.require(len(fs) == 1, "zcross: the block choosing the first sign not found")
+    # which arm searches the data for the first sign: the guard is evaluated for representative (first_sign,
+    # hysteresis) pairs - the search happens exactly when first_sign is 0, whatever the hysteresis
+    from ..dtable import Facts, holds as _holds, RAISE as _RAISE
+    has_search = lambda stmts: any(isinstance(n, ast.For) and any(isinstance(b_, ast.Break) for b_ in ast.walk(n)) for st_ in stmts for n in ast.walk(st_))
+    search_in_body = has_search(fs[0].body)
+    chk.require(search_in_body != has_search(fs[0].orelse), "zcross: the search for the first sign is not in exactly one arm")
+    bad_pairs = []
+    for fsv, hv in ((0, 0), (0, 1), (0.0, 0.5), (1, 0), (-1, 0), (0.5, 1), (-0.5, 1), (2, 1), (-3, 1), (1, 1)):
+        F_ = Facts(values={"first_sign": fsv, "hysteresis": hv, "neg_hyst": -hv, "-hysteresis": -hv})
+        t_ = test0
+        r_ = None
+        if isinstance(t_, ast.Compare) and len(t_.ops) == 2:
+            # a <= x <= b
+            parts = [ast.Compare(left=t_.left, ops=[t_.ops[0]], comparators=[t_.comparators[0]]),
+                     ast.Compare(left=t_.comparators[0], ops=[t_.ops[1]], comparators=[t_.comparators[1]])]
+            vals = [_holds(ast.fix_missing_locations(p_), F_) for p_ in parts]
+            r_ = None if None in vals else (_RAISE if _RAISE in vals else all(vals))
+        else:
+            r_ = _holds(t_, F_)
+        if r_ is None or r_ is _RAISE:
+            raise AnalysisError("zcross: guard of the first-sign block not interpretable: %s" % unparse(test0))
+        searches = bool(r_) == search_in_body
+        if searches != (fsv == 0):
+            bad_pairs.append("first_sign=%r, hysteresis=%r -> %s" % (fsv, hv, "searched in the data" if searches else "taken from first_sign"))
+    chk.decide(not bad_pairs, "C20.zcross", WA("zcross"), "the sign is searched in the data exactly when first_sign is 0: " + unparse(test0),
+               why="; ".join(bad_pairs[:3]) or "-", node=fs[0])
+    blk = fs[0] if search_in_body else ast.If(test=fs[0].test, body=fs[0].orelse, orelse=fs[0].body)
     loop1 = [s for s in blk.body if isinstance(s, ast.For)]
     chk.require(len(loop1) == 1, "zcross: first-sign loop not found")
     l1 = loop1[0]
